@@ -255,4 +255,159 @@ theorem lookupF_none_reg (copy : Bool) (env : Env) :
     simp only [lookupF] at hn ⊢
     exact lookupBody_none_reg (lookupF_none_reg copy env f) copy env R n hn
 
+/-- a name ending in `-truecolor` does not end in `-256color` -/
+theorem stripSuffix_256_truecolor (base : Name) : stripSuffix sfx256color (base ++ sfxTruecolor) = none := by
+  apply stripSuffix_none_of_not_suffix
+  simp [List.isSuffixOf, sfxTruecolor, sfx256color, List.isPrefixOf]
+
+/-! ## values: what the caller sees; the amendments as a function on values -/
+
+/-- value of the entry after terminfo.go:750-779, as a function of the value found -/
+def finishVal (env : Env) (t : Terminfo) (addTC add256 : Bool) : Terminfo :=
+  let t1 := if env.finalTC addTC && rgbAllEmpty t then addRGB t else t
+  if add256 then set256 t1 else t1
+
+theorem get_amend (copy : Bool) (R : Registry) (r : Res) (f : Terminfo → Terminfo) :
+    (amend copy R r f).2.get (amend copy R r f).1 = f (R.get r) := by
+  cases copy <;> cases r <;> simp [amend, Registry.get, Registry.update, Registry.deref]
+
+theorem get_finish (copy : Bool) (env : Env) (R : Registry) (r : Res) (a b : Bool) :
+    (finish copy env R r a b).2.get (finish copy env R r a b).1 = finishVal env (R.get r) a b := by
+  unfold finish finishVal
+  by_cases h1 : (env.finalTC a && rgbAllEmpty (R.get r)) = true <;> cases b <;> simp [h1, get_amend]
+
+/-! ## the first resolving sibling -/
+
+theorem firstFound_some {look : Look} (hnone : ∀ R n, (look R n).1 = none → (look R n).2 = R) (base : Name) :
+    ∀ (ss : List Name) (R : Registry) (r : Res) (R' : Registry), firstFound look base ss R = (some r, R') →
+      ∃ s ∈ ss, look R (base ++ s) = (some r, R')
+  | [], _, _, _, h => by cases h
+  | s0 :: ss, R, r, R', h => by
+    simp only [firstFound] at h
+    have hn := hnone R (base ++ s0)
+    cases hl : look R (base ++ s0) with
+    | mk o R0 =>
+      rw [hl] at h hn
+      cases o with
+      | some r0 =>
+        simp only at h
+        exact ⟨s0, List.mem_cons_self .., hl.trans h⟩
+      | none =>
+        simp only at h hn
+        have : R0 = R := hn trivial
+        subst this
+        obtain ⟨s, hs, hls⟩ := firstFound_some hnone base ss _ r R' h
+        exact ⟨s, List.mem_cons_of_mem _ hs, hls⟩
+
+theorem firstFound_isSome_of_exists {look : Look} (hnone : ∀ R n, (look R n).1 = none → (look R n).2 = R) (base : Name) :
+    ∀ (ss : List Name) (R : Registry), (∃ s ∈ ss, (look R (base ++ s)).1.isSome = true) →
+      (firstFound look base ss R).1.isSome = true
+  | [], _, ⟨_, hs, _⟩ => by cases hs
+  | s0 :: ss, R, ⟨s, hs, h⟩ => by
+    simp only [firstFound]
+    have hn := hnone R (base ++ s0)
+    cases hl : look R (base ++ s0) with
+    | mk o R0 =>
+      rw [hl] at hn
+      cases o with
+      | some r0 => rfl
+      | none =>
+        simp only at hn ⊢
+        have : R0 = R := hn trivial
+        subst this
+        rcases List.mem_cons.mp hs with rfl | hs'
+        · rw [hl] at h; cases h
+        · exact firstFound_isSome_of_exists hnone base ss _ ⟨s, hs', h⟩
+
+/-! ## pinned and repaired code agree on the value of a lookup in the same registry -/
+
+theorem firstFound_agree {l1 l2 : Look}
+    (h1 : ∀ R n, (l1 R n).1 = none → (l1 R n).2 = R) (h2 : ∀ R n, (l2 R n).1 = none → (l2 R n).2 = R)
+    (h : ∀ R n, resultOf (l1 R n) = resultOf (l2 R n)) (base : Name) :
+    ∀ (ss : List Name) (R : Registry), resultOf (firstFound l1 base ss R) = resultOf (firstFound l2 base ss R)
+  | [], _ => rfl
+  | s0 :: ss, R => by
+    simp only [firstFound]
+    have e := h R (base ++ s0)
+    have n1 := h1 R (base ++ s0)
+    have n2 := h2 R (base ++ s0)
+    cases hl1 : l1 R (base ++ s0) with
+    | mk o1 R1 =>
+      cases hl2 : l2 R (base ++ s0) with
+      | mk o2 R2 =>
+        rw [hl1] at n1 e; rw [hl2] at n2 e
+        cases o1 <;> cases o2
+        · simp only at n1 n2 ⊢
+          have e1 : R1 = R := n1 trivial
+          have e2 : R2 = R := n2 trivial
+          subst e1; subst e2
+          exact firstFound_agree h1 h2 h base ss _
+        · simp [resultOf] at e
+        · simp [resultOf] at e
+        · exact e
+
+theorem lookupBody_agree {l1 l2 : Look}
+    (h1 : ∀ R n, (l1 R n).1 = none → (l1 R n).2 = R) (h2 : ∀ R n, (l2 R n).1 = none → (l2 R n).2 = R)
+    (h : ∀ R n, resultOf (l1 R n) = resultOf (l2 R n)) (env : Env) (R : Registry) (n : Name) :
+    resultOf (lookupBody false env l1 R n) = resultOf (lookupBody true env l2 R n) := by
+  unfold lookupBody
+  by_cases hn : n = []
+  · simp [hn, resultOf]
+  · simp only [hn, if_false]
+    -- common tail: same value found, same flags
+    have tail : ∀ (R1 R2 : Registry) (r1 r2 : Res) (a b : Bool), R1.get r1 = R2.get r2 →
+        resultOf (some (finish false env R1 r1 a b).1, (finish false env R1 r1 a b).2) =
+        resultOf (some (finish true env R2 r2 a b).1, (finish true env R2 r2 a b).2) := by
+      intro R1 R2 r1 r2 a b hv
+      simp only [resultOf, Option.map_some]
+      rw [get_finish, get_finish, hv]
+    cases hf : R.find n with
+    | some id =>
+      simp only [searchTC, hf, search256]
+      exact tail R R _ _ _ _ rfl
+    | none =>
+      cases hs : stripSuffix sfxTruecolor n with
+      | some base =>
+        have hnb := stripSuffix_some hs
+        have e := firstFound_agree h1 h2 h base sufTrue R
+        have n1 := firstFound_none_reg h1 base sufTrue R
+        have n2 := firstFound_none_reg h2 base sufTrue R
+        cases hl1 : firstFound l1 base sufTrue R with
+        | mk o1 R1 =>
+          cases hl2 : firstFound l2 base sufTrue R with
+          | mk o2 R2 =>
+            rw [hl1] at n1 e; rw [hl2] at n2 e
+            cases o1 <;> cases o2
+            · have h256 : stripSuffix sfx256color n = none := by rw [hnb]; exact stripSuffix_256_truecolor base
+              simp [searchTC, hf, hs, hl1, hl2, search256, h256, resultOf]
+            · simp [resultOf] at e
+            · simp [resultOf] at e
+            · simp only [searchTC, hf, hs, hl1, hl2, search256]
+              simp only [resultOf, Option.map_some, Option.some.injEq] at e
+              exact tail _ _ _ _ _ _ e
+      | none =>
+        cases hs2 : stripSuffix sfx256color n with
+        | some base =>
+          have e := firstFound_agree h1 h2 h base suf256 R
+          cases hl1 : firstFound l1 base suf256 R with
+          | mk o1 R1 =>
+            cases hl2 : firstFound l2 base suf256 R with
+            | mk o2 R2 =>
+              rw [hl1, hl2] at e
+              cases o1 <;> cases o2
+              · simp [searchTC, hf, hs, hl1, hl2, search256, hs2, resultOf]
+              · simp [resultOf] at e
+              · simp [resultOf] at e
+              · simp only [searchTC, hf, hs, hl1, hl2, search256, hs2]
+                simp only [resultOf, Option.map_some, Option.some.injEq] at e
+                exact tail _ _ _ _ _ _ e
+        | none => simp [searchTC, hf, hs, search256, hs2, resultOf]
+
+theorem lookupF_agree (env : Env) :
+    ∀ (f : Nat) (R : Registry) (n : Name), resultOf (lookupF false env f R n) = resultOf (lookupF true env f R n)
+  | 0, _, _ => rfl
+  | f + 1, R, n => by
+    simp only [lookupF]
+    exact lookupBody_agree (lookupF_none_reg false env f) (lookupF_none_reg true env f) (lookupF_agree env f) env R n
+
 end Tcell.Lookup
